@@ -80,6 +80,7 @@ impl Preferences{
         prefs.insert("BrailleCode".to_string(), Yaml::String("Nemeth".to_string()));
         prefs.insert("BrailleNavHighlight".to_string(), Yaml::String("EndPoints".to_string()));
         prefs.insert("UEB_START_MODE".to_string(), Yaml::String("Grade2".to_string()));
+        prefs.insert("DecimalSeparator".to_string(), Yaml::String("Auto".to_string()));    // used when setting a preference
         prefs.insert("DecimalSeparators".to_string(), Yaml::String(".".to_string()));
         prefs.insert("BlockSeparators".to_string(), Yaml::String(", \u{00A0}\u{202F}".to_string()));
     
